@@ -84,13 +84,31 @@ def check(ctx, fx):
         t = re.sub(r"\bcodePoint1\b", "codePoint2", t)
         t = re.sub(r"\blow_surrogate1\b", "low_surrogate2", t)
         return t
-    # compared as sets of distinct statements (the CFG may evaluate one operand of the loop
-    # condition in a block of its own on one side only)
-    a = sorted(set(ren(t) for t in texts if side1.search(t) and not side2.search(t)))
-    bb = sorted(set(t for t in texts if side2.search(t) and not side1.search(t)))
+    # the final verdict `return (j < rhs.size() || low_surrogate2 != 0)` is asymmetric by design: its
+    # operands, which the CFG evaluates as branch conditions of their own, are discounted once each
+    discount = []
+    for b in g["blocks"]:
+        for s in b["stmts"]:
+            if s["k"] == "return" and s.get("e") is not None:
+                def leaves(e):
+                    e0 = X.strip(e)
+                    if isinstance(e0, dict) and e0.get("k") == "bin" and e0.get("op") in ("&&", "||"):
+                        return leaves(e0["l"]) + leaves(e0["r"])
+                    return [e0]
+                lv = leaves(s["e"])
+                if len(lv) > 1:
+                    discount += ["cond " + X.show(x) for x in lv[:-1]]   # the last operand is part of the return itself
+    import collections
+    tl = list(texts)
+    for d in discount:
+        if d in tl:
+            tl.remove(d)
+    a = sorted(ren(t) for t in tl if side1.search(t) and not side2.search(t))
+    bb = sorted(t for t in tl if side2.search(t) and not side1.search(t))
     ctx.floor("Q2", len(a), 12, "statements of the left-hand decoder")
-    only_a = [t for t in a if t not in bb]
-    only_b = [t for t in bb if t not in a]
+    ca, cb = collections.Counter(a), collections.Counter(bb)
+    only_a = sorted((ca - cb).elements())
+    only_b = sorted((cb - ca).elements())
     ctx.check("Q2", "comparator decoders are mirror images", a == bb, "%d statements each" % len(a),
               "left decoder (renamed) has %s which the right decoder lacks; right has %s" % (only_a[:3], only_b[:3]),
               where=g["loc"].replace("/repo/", ""))
